@@ -414,6 +414,10 @@ class PEval:
         # value of the call expression: remember single constant returns via a synthetic key
         if len(rets) == 1 and None not in rets:
             env['#call:%d' % c['id']] = next(iter(rets))
+        elif rets and None not in rets and all(isinstance(v, int) and v != 0 for v in rets):
+            # every feasible return of the callee is a non-zero (error) code: the call is known to be `true`; one representative code is
+            # carried (callers in this code base test such results for zero / non-zero and pass them on)
+            env['#call:%d' % c['id']] = min(rets)
 
     # allow val() to see folded call results
     _val_orig = val
